@@ -318,6 +318,8 @@ def run_case(case, obs):
         except ValueError as e:
             if "Data not chunked correctly" in str(e):
                 obs.refuse("sparse solver requires chunks along the feature dimensions only")
+            if "All chunks must be a square matrix" in str(e):
+                obs.refuse("dask's own lu/inv refuses this chunk layout")
             raise
         got = _entries(m)
         still = [k for k, v in got.items() if not _is_input(k) and xu.is_dask(v)]
